@@ -2,6 +2,7 @@ package main
 
 import (
 	"fmt"
+	"go/token"
 	"go/types"
 	"sort"
 	"strings"
@@ -856,4 +857,60 @@ func zeroLocalTarget(call ssa.Instruction, arg ssa.Value) *ssa.Alloc {
 		return nil
 	}
 	return a
+}
+
+// privateAllocs returns the local variables of fn whose address is only used to read and write them
+// (never stored, passed, boxed, captured, sliced or merged): nothing outside fn can reach them.
+func (P *Prog) privateAllocs(fn *ssa.Function) []*ssa.Alloc {
+	P.mu.Lock()
+	if P.privAllocs == nil {
+		P.privAllocs = map[*ssa.Function][]*ssa.Alloc{}
+	}
+	if r, ok := P.privAllocs[fn]; ok {
+		P.mu.Unlock()
+		return r
+	}
+	P.mu.Unlock()
+	var private func(v ssa.Value, depth int) bool
+	private = func(v ssa.Value, depth int) bool {
+		if v.Referrers() == nil || depth > 6 {
+			return false
+		}
+		for _, r := range *v.Referrers() {
+			switch x := r.(type) {
+			case *ssa.DebugRef:
+			case *ssa.UnOp:
+				if x.Op != token.MUL {
+					return false
+				}
+			case *ssa.Store:
+				if x.Addr != v || x.Val == v {
+					return false
+				}
+			case *ssa.FieldAddr:
+				if !private(x, depth+1) {
+					return false
+				}
+			case *ssa.IndexAddr:
+				if !private(x, depth+1) {
+					return false
+				}
+			default:
+				return false
+			}
+		}
+		return true
+	}
+	var out []*ssa.Alloc
+	for _, b := range fn.Blocks {
+		for _, ins := range b.Instrs {
+			if a, ok := ins.(*ssa.Alloc); ok && private(a, 0) {
+				out = append(out, a)
+			}
+		}
+	}
+	P.mu.Lock()
+	P.privAllocs[fn] = out
+	P.mu.Unlock()
+	return out
 }
